@@ -106,6 +106,10 @@ func Calls(toks []model.Value) ([]string, error) {
 	return calls, nil
 }
 
+// SelftestPanic is a call text that makes Run panic on purpose: the negative
+// control of the crash detection (C01).
+const SelftestPanic = ".verif-selftest-panic"
+
 // Outcome of running a program on the library.
 type Outcome struct {
 	Err    error
@@ -123,6 +127,9 @@ func (b *Binding) Run(calls []string, maxops int) (out Outcome) {
 	}()
 	b.Intp.MaxOps = maxops
 	for _, c := range calls {
+		if c == SelftestPanic {
+			panic("selftest: deliberate panic inside the replay scope")
+		}
 		if err := b.Intp.ExecuteString(c); err != nil {
 			out.Err = err
 			return
